@@ -22,7 +22,7 @@ RULE = ("Random interleavings (5-80 operations) of quotes and discontinuations o
         "contains a discontinuation followed by a quote for the same contract, or a chain-addressed quote after a roll.")
 ASSUMPTIONS = ["a quote is 'accepted' iff its book is alive; rejected quotes must not be appended to the history"]
 REQUIRED = ["C14:price", "C14:alive", "C14:history", "C14:sides", "C14:chain-key-is-lead", "C14:string-key-same-book", "C14:vectors"]
-REQUIRED_CATS = ["op:disc", "op:chainq", "op:strq", "quote-after-death", "chain-after-roll"]
+REQUIRED_CATS = ["query:sparse", "query:all-keys-every-op", "op:disc", "op:chainq", "op:strq", "quote-after-death", "chain-after-roll"]
 TECHNIQUE = "runtime monitoring: executable reference model (dict of books) compared after every operation of generated histories"
 LEVEL_TEXT = ("Exploration: history + executable model. Every generated quote/discontinuation history is replayed against a small "
               "deterministic model and every observable of every book is compared after each operation.")
@@ -54,7 +54,10 @@ def case(ctx, i, tier):
     def m(sym):
         return model.setdefault(sym, {"bid": NAN, "ask": NAN, "alive": True, "hist": []})
 
-    for step in range(rng.randint(5, 80)):
+    n_ops = rng.randint(5, 80)
+    full = rng.random() < 0.5
+    ctx.cat("query:all-keys-every-op" if full else "query:sparse")
+    for step in range(n_ops):
         t += timedelta(days=rng.choice([0, 0, 1, 3, 20]), seconds=rng.choice([0, 1, 3600]))
         if t > datetime(2020, 8, 1):
             t = datetime(2020, 8, 1)
@@ -99,8 +102,13 @@ def case(ctx, i, tier):
                 dead_then_quote = True
                 ctx.cat("quote-after-death")
             ops.append([op, tgt, b, a])
-        # ---- compare every book ------------------------------------------ #
-        for s_, o in objs.items():
+        # ---- compare the books -------------------------------------------- #
+        # (books are created lazily on first access: in half of the cases only a random
+        #  subset is queried after each operation, so first-touch orders vary; everything
+        #  is compared after the last operation)
+        last = step == n_ops - 1
+        subset = list(objs.items()) if (full or last) else [kv for kv in objs.items() if rng.random() < 0.3]
+        for s_, o in subset:
             mm = m(s_)
             lob_o = ex[o]
             lob_s = ex[s_]
@@ -120,7 +128,7 @@ def case(ctx, i, tier):
                       and same(lob.acq_price(0), (mm["ask"] + mm["bid"]) / 2)
                       and same(lob.liq_price(0), (mm["ask"] + mm["bid"]) / 2), symbol=s_)
         ctx.check("C14:chain-key-is-lead", ex[ch] is ex[lead] and ex[ch] is ex[lead.symbol], lead=lead.symbol, now=t)
-        keys = list(objs.values())
+        keys = [o for _, o in subset] or list(objs.values())[:1]
         signs = np.array([rng.choice([-1.0, 1.0]) for _ in keys])
         okv = all(same(x, m(k.symbol)["bid"]) for x, k in zip(ex.bid_prices(keys), keys)) and \
             all(same(x, m(k.symbol)["ask"]) for x, k in zip(ex.ask_prices(keys), keys)) and \
